@@ -129,7 +129,7 @@ PROPS["C10"] = {
     "technique": "deterministic simulation: seeded rating/readiness fault scripts, membership changes and clock advances against the real rebalancer; invariant and bounded-progress oracles on the effective weights after every request (exact rational share comparison)",
     "level_text": "seeded search over rating histories, weight vectors, back-off durations and membership changes; sampled, not exhaustive",
     "level_note": RR_NOTE + "; direction and loss-of-share are only judged when ratings are clear-cut (strict minority rated >= 0.5, everyone else <= 0.05) so that no constant of the outlier-split rule is assumed; effective weight = weight of the server in the balancer beneath the rebalancer",
-    "assumptions": ["only forward clock steps", "sequential requests (the property quantifies over histories, not schedules; C09 covers concurrency)"],
+    "assumptions": ["only forward clock steps", "requests are sequential except for drawn pairs of one request overlapped by one administration call (removal or re-weighting), which run under the fine-grained scheduler; by draw the balancer beneath the rebalancer refuses a removal for the moment"],
 }
 
 PROPS["C11"] = {
